@@ -3,6 +3,7 @@ import KVerif.Drv.Lay
 import KVerif.Drv.C04
 import KVerif.Drv.C13
 import KVerif.Drv.C05
+import KVerif.Drv.Kan
 open KVerif.Drv
 
 /-- kvdrv <prop>: one case line in, one `M <model> ## S <spec>` line out. -/
@@ -13,6 +14,7 @@ def dispatch (prop : String) : Option (String → String × String) :=
   | "C13" => some C13.run
   | "C05" => some C05.run
   | "C05o" => some C05.runOracle
+  | "KALL" => some (Kan.run "KAN")
   | "LALL" => some (Lay.run "LAY")
   | _ => none
 
